@@ -175,23 +175,28 @@ CLAIMED = {
             'Trusted: Lean kernel; recorder model tied by differential execution; known finding K5 (alias containing the reserved '
             'operation alias) is excluded by hypothesis and exhibited as a counterexample theorem and corpus witness.',
             'DESIGN.md 6/C18'),
-    'C06': ('Lean 4 theorems over a hand-written token-level model of jsonpickle 0.9.3 over json (encToks/decToks/render) and of '
+    'C06': ('Lean 4 theorems over a hand-written token- and character-level model of jsonpickle 0.9.3 over json (encToks/decToks/render, '
+            'lexer with proofs by induction that it inverts rendering) and of '
             '_format_alias / _input_interception_key; tied to /repo by exact-text differential execution of every key (direct '
             'path and real decorator path), re-keying under PYTHONHASHSEED 0/1/random, replay in fresh processes with other hash '
             'seeds, a partition oracle and an adversarial separator stream',
             'Kernel-checked: the key is a function of (resolved alias, captured args); invariant under dict/kwargs insertion '
             'order at any depth, under excluded arguments, and (set-free args) under the set iteration order; the codec '
-            'round-trips on the faithful domain and the token-level key is injective up to dict order; the alias boundary is '
-            'proved on characters for aliases without =.',
-            'Partial as named: set-valued captured args (K1, open). Injectivity at token level (json lexing trusted, exact-text '
-            'tie). Values are trees (py/id sharing outside). jsonpickle behaviour transcribed, not verified.', 'DESIGN.md 6/C06'),
+            'round-trips on the faithful domain at token level AND at text level (a character-level lexer provably recovers the '
+            'tokens of every rendered stream; string and integer literals are rendered injectively, surrogate pairs included); '
+            'the key TEXT is injective up to dict order (C06_key_text_injective: equal key strings => equal alias and equal '
+            'captured arguments), for aliases without = and well-formed float texts.',
+            'Partial as named: set-valued captured args (K1, open). Values are trees (py/id sharing outside). jsonpickle behaviour '
+            'transcribed, not verified; float texts are Python reprs passed by the harness (well-formedness is an explicit '
+            'decidable premise); bytes as their quoted-printable text.', 'DESIGN.md 6/C06'),
     'C07': ('Lean 4 theorems over a model of the three cassettes as name->blob stores over the same codec model (zlib a '
             'parameter); tied to /repo by running the real in-memory / file / S3 (fake bucket, prefixes \'\', p, a/b) '
             'cassettes and the model on the same histories, comparing fetched content, stored names and stored text',
             'Kernel-checked for every cassette kind: fetch-after-save returns the saved id, key set, per-key data and metadata '
             '(up to dict order); metadata alone agrees; other saves before and after do not disturb; never-saved ids give '
             'NoSuchRecording; cassette-made ids get distinct files.',
-            'Token-level codec. zlib, json lexing, fake S3 and the file system are trusted. Excluded by explicit hypotheses: '
+            'Codec at token level; that the stored TEXT carries exactly those tokens is C07_stored_text_decodes (character-level '
+            'lexer). zlib, fake S3 and the file system are trusted. Excluded by explicit hypotheses: '
             'reserved-tag key names, attribute-less objects, S3 data key _metadata (K2, open), shared sub-objects after an object '
             'whose state holds a list (K7, open).', 'DESIGN.md 6/C07'),
     'C11': ('Lean 4 proof on a heap model of aliasing (addresses, fresh-copy allocation, closed private blocks, invariant over '
